@@ -97,6 +97,6 @@ def plan(tier):
     p.bound = ("tags %s; strings <=2 ASCII bytes, vectors <=2, arrays <=2 scalar elements (+1 nested), maps <=1 key; "
                "unwind 42 with unwinding assertions" % sorted(set(TAGS[t] for t in pair_tags)))
     p.not_covered = "containers nested deeper than 2, longer strings/arrays/maps, non-ASCII strings"
-    p.per_harness_timeout = 420 if tier == 'quick' else 1500
-    p.total_timeout = 1700 if tier == 'quick' else 7000
+    p.per_harness_timeout = 900 if tier == 'quick' else 1500
+    p.total_timeout = 2700 if tier == 'quick' else 7000
     return p
